@@ -10,6 +10,7 @@
 #include <memory>
 #include <vector>
 #include <atomic>
+#include <stdexcept>
 #include <climits>
 #include <thread>
 #include <algorithm>
@@ -126,6 +127,8 @@ void body_fn(Scenario *S, TaskRec *T) {
     S->inflight.fetch_sub(1);
     T->end_tick.store(vc::tick(), std::memory_order_relaxed);
     T->end_count.fetch_add(1, std::memory_order_relaxed);
+    // body 4 leaves by exception: the pool catches it (CatchThrow) and must treat the task as finished like any other
+    if (T->body == 4) throw std::runtime_error("c05: task body leaves by exception");
 }
 
 bool all_settled(Scenario &S) {
@@ -346,6 +349,7 @@ void gen(vh::Rng &r, Scenario &S, vh::Sig &sig) {
             switch (r.below(12)) {
                 case 0: case 1: case 2: case 3: case 4: {
                     int body = (int)r.below(10); body = body < 4 ? 0 : body < 7 ? 1 : body < 9 ? 2 : 3;
+                    if (body != 3 && r.chance(1, 25)) { body = 4; vh::counter("task_bodies_leaving_by_exception"); }
                     int g = -1;
                     if (body == 3) { g = ngates++; open_gates.push_back(g); }
                     add(S_EXEC, (int)r.range(-3, 3), body, g, r.chance(1, 2)); ++ntasks_total;
